@@ -124,6 +124,8 @@ class Ctx:
         self.axioms = list(axioms)
         self.solver = z3.Solver()
         self.solver.set('timeout', timeout_ms)
+        self.solver.set('smt.mbqi', False)
+        self.solver.set('smt.arith.nl', False)
         for a in self.axioms:
             self.solver.add(a)
         self.ghost = {}
@@ -179,6 +181,8 @@ class Ctx:
                 return False
             if o is True or (is_z3(o) and z3.is_true(o)):
                 return self.feasible() if n > 1 else True
+            if has_quantifier(o):
+                return True         # not decided here: both sides are explored
             return self.feasible(o)
 
         if self.ghost.get('speculating', 0):
@@ -228,23 +232,22 @@ class Ctx:
         return self.counters[key] - 1
 
 
-_HQ = {}
-
-
-def has_quantifier(e, depth=0):
+def has_quantifier(e, memo=None, depth=0):
     if not is_z3(e):
         return False
+    if memo is None:
+        memo = {}
     i = e.get_id()
-    r = _HQ.get(i)
+    r = memo.get(i)
     if r is not None:
         return r
     if z3.is_quantifier(e):
-        r = not e.is_lambda()
-    elif depth > 40:
+        r = not e.is_lambda() or has_quantifier(e.body(), memo, depth + 1)
+    elif depth > 60:
         r = False
     else:
-        r = any(has_quantifier(c, depth + 1) for c in e.children())
-    _HQ[i] = r
+        r = any(has_quantifier(c, memo, depth + 1) for c in e.children())
+    memo[i] = r
     return r
 
 
@@ -920,7 +923,13 @@ class Interp:
         name = f'{key}/loop{k}'
         from .apply import Old
         from .heap import snapshot
-        ctx.ghost['loop_old'] = Old(snapshot({kk: v for kk, v in env.vars.items()}))
+        visible = {}
+        e_ = env
+        while e_ is not None:
+            for kk, v in e_.vars.items():
+                visible.setdefault(kk, v)
+            e_ = e_.parent
+        ctx.ghost['loop_old'] = Old(snapshot(visible))
         self.check_invariant(spec, env, f'{name}/inv-entry', index_var)
         self.havoc_loop(spec, env, node, index_var)
         if index_var is not None and bounds is not None:
@@ -995,6 +1004,11 @@ class Interp:
             if p == 'loop_old':
                 args.append(self.ctx.ghost.get('loop_old'))
                 continue
+            if p == 'res' and self.ctx.ghost.get('comp_var'):
+                found, v = env.lookup(self.ctx.ghost['comp_var'])
+                if found:
+                    args.append(v)
+                    continue
             found, v = env.lookup(p)
             if not found:
                 raise Unsupported(f'sidecar function {f.name}: no local variable {p}')
@@ -1480,6 +1494,13 @@ class Interp:
         return res
 
     def compare(self, op, a, b):
+        if op in ('Eq', 'NotEq') and (isinstance(a, SV) or isinstance(b, SV)):
+            # equality with a dynamically typed value is decided at the Val level, without a type fork
+            try:
+                r = self.to_val(a) == self.to_val(b)
+                return r if op == 'Eq' else z3.Not(r)
+            except Unsupported:
+                pass
         return self.models.compare(self, op, self.resolve(a), self.resolve(b))
 
     def ev_Lambda(self, e, env):
@@ -1517,7 +1538,7 @@ class Interp:
             seq = list(it.items)
         else:
             spec = self.reg.loop_spec(key, k) if self.reg else None
-            return self.models.symbolic_comprehension(self, e, env, it, spec, key, k, kind)
+            return self.symbolic_comprehension(e, env, it, spec, key, k, kind)
         scope = Env({}, env)
         out = [] if kind == 'list' else {}
         if isinstance(it, list):
@@ -1539,6 +1560,36 @@ class Interp:
                 else:
                     out[self.ev(e.key, scope)] = self.ev(e.value, scope)
         return out
+
+    def symbolic_comprehension(self, e, env, it, spec, key, k, kind):
+        """[elt for target in it] with a symbolic trip count: a loop appending to a result list that
+        invariants call `res`"""
+        if kind != 'list':
+            raise Unsupported('symbolic dict comprehension')
+        if spec is None:
+            raise Unsupported(f'loop {key}#{k}: symbolic trip count and no invariant in the sidecar')
+        g = e.generators[0]
+        name = f'__comp{k}'
+        scope = Env({}, env)
+        keep = spec.get('elem', 'bytes') != 'none'
+        scope.vars[name] = []
+        if keep:
+            stmt = ast.Expr(ast.Call(func=ast.Attribute(value=ast.Name(id=name, ctx=ast.Load()), attr='append',
+                                                        ctx=ast.Load()), args=[e.elt], keywords=[]))
+        else:
+            stmt = ast.Expr(e.elt)
+        body = [stmt]
+        for c in reversed(g.ifs):
+            body = [ast.If(test=c, body=body, orelse=[])]
+        node = ast.For(target=g.target, iter=g.iter, body=body, orelse=[])
+        ast.fix_missing_locations(node)
+        prev = self.ctx.ghost.get('comp_var')
+        self.ctx.ghost['comp_var'] = name
+        try:
+            self.for_loop(key, k, spec, g.target, it, body, scope, node)
+        finally:
+            self.ctx.ghost['comp_var'] = prev
+        return scope.vars[name] if keep else ZList('val')
 
     def iter_concrete(self, v):
         v = self.resolve(v)
